@@ -871,7 +871,7 @@ Proof.
 Qed.
 
 Lemma newObject_name_old (t t' : T) opc th p o0 : newObject t opc th = Ok (t', p) -> tget t p = Some o0 ->
-  exists po, tget t' p = Some po /\ o_name po = o_name o0.
+  exists po, tget t' p = Some po /\ o_name po = name_zero.
 Proof.
   unfold newObject. intros H Hn. destruct (t_free t =? InvalidIndex) eqn:Ef; cbn [bind] in H.
   - apply bind_ok in H. destruct H as (info & _ & H). apply bind_ok in H. destruct H as (t2 & Hw & H). inversion H; subst t2 p. clear H.
@@ -880,7 +880,7 @@ Proof.
     apply bind_ok in H. destruct H as (info & _ & H). apply bind_ok in H. destruct H as (t2 & Hw & H). inversion H; subst t2 p. clear H.
     rewrite deref_get in Ho. rewrite Hn in Ho. inversion Ho; subst o.
     destruct (wr_inv _ _ _ _ Hw) as (-> & o1 & Ho1). rewrite get_tset, N.eqb_refl, Ho1. cbn [option_map]. eexists. split; [reflexivity|].
-    assert (o1 = o0) by (unfold TreeSpec.get in *; cbn [t_pool] in Ho1; congruence). subst o1. reflexivity.
+    reflexivity.
 Qed.
 
 Lemma new_step3 P opc s g (Q : N -> pstate -> Prop) :
@@ -894,7 +894,7 @@ Lemma new_step3 P opc s g (Q : N -> pstate -> Prop) :
      (forall y, kids g' y = kids g y) ->
      (forall x, glive g' x -> glive g x \/ x = p) ->
      (tget (p_tree s) p = None -> o_name po = name_zero) ->
-     (forall o0, tget (p_tree s) p = Some o0 -> o_name po = o_name o0) ->
+     (forall o0, tget (p_tree s) p = Some o0 -> o_name po = name_zero) ->
      Q p (with_tree s t')) ->
   wp P (newObj opc) s Q.
 Proof.
@@ -914,7 +914,7 @@ Proof. cbn [astep]. unfold glive. rewrite set_kids_len, set_kids_free. tauto. Qe
 Definition xdesc (s : pstate) (g : ghost) (s' : pstate) (g' : ghost) (top x : N) : Prop :=
   exists xo, tget (p_tree s') x = Some xo /\ In x (kids g' top) /\ rowis (o_opcode xo) xo /\
     (tget (p_tree s) x = None -> o_name xo = name_zero) /\
-    (forall o0, tget (p_tree s) x = Some o0 -> o_name xo = o_name o0) /\
+    (forall o0, tget (p_tree s) x = Some o0 -> o_name xo = name_zero) /\
     (msop xo -> forall op fl af, opInfo (o_infoIndex xo) = Some (op, fl, af) -> simple_from af 0 ->
        hasFlag fl aml_pOpFlagDeferParsing = false ->
        exists objs, kids g' x = objs /\ Forall2 (fun ty a => akind ty s' g' a) (otys af 0) objs /\ Forall (fun a => ~ glive g a) objs).
@@ -1020,7 +1020,7 @@ Proof.
         rewrite Ee, Hk4. apply in_or_app. left. apply in_or_app. right. left. reflexivity. }
       split; [unfold rowis; rewrite E1, E2, Eop4, Eii4; exact Hidx'|].
       split; [intros Hn; rewrite E4, Enm4; apply Hname2; exact Hn|].
-      split; [intros o0 Hn; rewrite E4, Enm4; apply Hname2o; exact Hn|].
+      split; [intros o0 Hn; rewrite E4, Enm4; apply (Hname2o o0); exact Hn|].
       intros Hms op fl af Hrow Hsim Hdf.
       destruct (G9 Hr o4 op fl af Ho4) as (objs & Hko & Hf2 & Hn2); auto.
       { rewrite <- E2. exact Hrow. }
